@@ -634,6 +634,10 @@ func Run(o lib.Opts) {
 		{Kind: "sync", Seed: 72, Action: "check", Parallel: 2, Rounds: 1, Entry: Entry{Type: "repository", Repo: "proj/app", Backup: "bak-{{.Ref.Tag}}"}},
 		{Kind: "sync", Seed: 73, Action: "once", Parallel: 2, Rounds: 2, Entry: Entry{Type: "registry", RepoAllow: []string{"proj/.*"}, Deny: []string{"dev-.*"}, Backup: "bak-{{.Ref.Tag}}"}},
 		{Kind: "sync", Seed: 74, Action: "once", Parallel: 1, Rounds: 1, CatPage: 1, Entry: Entry{Type: "registry", RepoAllow: []string{"team/.*"}}},
+		// check-only runs over every repository with a backup template: some target tag differs from its source, nothing may be written
+		{Kind: "sync", Seed: 75, Action: "check", Parallel: 1, Rounds: 2, Entry: Entry{Type: "registry", Backup: "bak-{{.Ref.Tag}}"}},
+		{Kind: "sync", Seed: 76, Action: "check", Parallel: 3, Rounds: 2, Entry: Entry{Type: "registry", Backup: "old-{{.Ref.Tag}}", Referrers: true}},
+		{Kind: "sync", Seed: 77, Action: "check", Parallel: 2, Rounds: 1, Entry: Entry{Type: "repository", Repo: "proj/lib", Backup: "bak-{{.Ref.Tag}}"}},
 	}
 	n := o.Scale(70, 1200)
 	for i := 0; i < n; i++ {
